@@ -154,10 +154,10 @@ class C15(Prop):
         """joint inversions requested through the Inversion front end (serial random sampling): broad polarity data so that a good share
         of the sampled tuples has non-zero probability, relative P amplitudes on partially overlapping stations"""
         for i in range(4 if tier == 'quick' else 30):
-            ne = rng.choice([2, 3])
+            ne = rng.choice([2, 3]) if i % 2 == 0 else 3
             events, truth = [], []
             for e in range(ne):
-                names = rng.sample(POOL, rng.randint(2, 6))
+                names = rng.sample(POOL, rng.randint(2, 6)) if i % 2 == 0 else rng.sample(POOL[:6], rng.randint(4, 6))
                 m_true = unit6(rng)
                 k = 10 ** rng.uniform(-1, 1)
                 rows, prow = [], []
@@ -169,7 +169,10 @@ class C15(Prop):
                     prow.append({'name': nm, 'az': az, 'toa': toa, 'measured': [1.0 if amp >= 0 else -1.0], 'error': [0.5], 'ipp': None})
                 events.append({'abs': {'types': {'PPolarity': prow}, 'loc': None, 'weights': None}, 'rel': rows})
                 truth.append(m_true)
-            yield {'kind': 'frontend', 'events': events, 'tuples': [], 'phase': 'p', 'relative': True, 'min_int': rng.choice([1, 2, 2, 3, 4]),
+            if i % 2 == 1:
+                # an event that is not the last one carries no absolute amplitudes at all (polarities only): its pairs contribute nothing, the other pairs are unaffected
+                events[rng.randrange(ne - 1)]['rel'] = []
+            yield {'kind': 'frontend', 'events': events, 'tuples': [], 'phase': 'p', 'relative': True, 'min_int': rng.choice([1, 2, 2, 3, 4]) if i % 2 == 0 else rng.choice([1, 2]),
                    'return_zero': True, 'consistent': False, 'scales': [1.0] * ne, 'err_level': None, 'probe_seed': rng.randrange(1 << 30),
                    'samples': rng.choice([150, 300])}
 
@@ -185,9 +188,10 @@ class C15(Prop):
         for n_, e in enumerate(case['events']):
             data, _loc = dg.to_mtfit(e['abs'], np)
             rows = e['rel']
-            data['PAmplitude'] = {'Stations': {'Name': [r['name'] for r in rows], 'Azimuth': np.matrix([[r['az']] for r in rows]),
-                                               'TakeOffAngle': np.matrix([[r['toa']] for r in rows])},
-                                  'Measured': np.matrix([[r['amp']] for r in rows]), 'Error': np.matrix([[r['err']] for r in rows])}
+            if rows:
+                data['PAmplitude'] = {'Stations': {'Name': [r['name'] for r in rows], 'Azimuth': np.matrix([[r['az']] for r in rows]),
+                                                   'TakeOffAngle': np.matrix([[r['toa']] for r in rows])},
+                                      'Measured': np.matrix([[r['amp']] for r in rows]), 'Error': np.matrix([[r['err']] for r in rows])}
             data['UID'] = 'ev%d' % n_
             evs.append(data)
         cwd = os.getcwd()
